@@ -223,7 +223,15 @@ def run(ck):
 
 
 def order_dependent(p):
-    return "for " in p["src"] and " in " in p["src"] and "{" in p["src"] and any(w in p["src"] for w in (" in {", " in copy(", " in in", " in v", " in immutable("))
+    """Conservative: the program iterates (for-in) and a map can exist in it - literal, host input or module export - so
+    that the iteration order, which Go randomises per run, may reach the result.  Such programs are compared through
+    their error class only, never value by value across two real runs."""
+    import re
+    src = p["src"]
+    if not re.search(r"\bfor\b[^\n{]*\bin\b", src):
+        return False
+    has_map = bool(re.search(r"\{\s*(\w+|\"[^\"]*\")\s*:", src)) or '"map"' in json.dumps(p.get("inputs", [])) or "import(" in src
+    return has_map
 
 
 def replay(ck, path):
